@@ -21,6 +21,7 @@
 EXTENDS Integers, Sequences, FiniteSets, SequencesExt, FiniteSetsExt, TLC, Json
 
 CONSTANTS Deviations,   \* subset of {"AffinityRekey"}: open known findings, modelled as the code behaves
+                        \* (+ self-test switches that TLC must refute: "CapFloorsAtLive"; Trace_UdpShell: "StaleInFlightUpstream")
           Family,       \* which small universe the model checker explores (see "Universe")
           MaxInputs,    \* bound on the number of inputs of a behaviour
           MaxTime,      \* virtual time ranges over 0..MaxTime
@@ -194,7 +195,10 @@ OnBackendDatagram(s, f, pl) ==
 \* on_config
 OnConfig(s, ev) ==
   CASE ev.what = "SetCluster"  -> R([s EXCEPT !.cluster = ev.cfg])
-    [] ev.what = "SetMaxFlows" -> R([s EXCEPT !.maxFlows = ev.v])
+    [] ev.what = "SetMaxFlows" ->
+         \* self-test switch CapFloorsAtLive (never an open finding; TLC must refute it with P_C19_Cap): the defect
+         \* class "a cap lowered below the live count is not stored as configured" (floored at the population)
+         R([s EXCEPT !.maxFlows = IF "CapFloorsAtLive" \in Deviations THEN Max({ev.v, Cardinality(Live(s))}) ELSE ev.v])
     [] ev.what = "SetMaxRx"    -> R([s EXCEPT !.maxRx = ev.v])
     [] ev.what = "Drain"       -> R([s EXCEPT !.draining = TRUE])
 
@@ -285,6 +289,8 @@ U == CASE Family = "affinity" ->     \* both affinity modes, switched while flow
             [init |-> {Cfg(1, TRUE, 0, 0, 2, 2, TRUE, FALSE), Cfg(1, FALSE, 0, 3, 1, 1, TRUE, TRUE)},
              set  |-> {Cfg(1, TRUE, 0, 0, 1, 1, FALSE, FALSE)},
              caps |-> {2}, rx |-> {2}, lens |-> {1}, blens |-> {1}]
+       [] Family = "cap" ->          \* cap changes below the live count, teardown, new sources: few input kinds, deeper
+            [init |-> {Base(TRUE)}, set |-> {}, caps |-> {0, 1, 2}, rx |-> {2}, lens |-> {1}, blens |-> {}]
        [] Family = "all" ->          \* simulation only
             [init |-> {Base(TRUE), Base(FALSE), Cfg(1, TRUE, 1, 0, 2, 1, TRUE, FALSE), Cfg(1, FALSE, 0, 2, 1, 2, TRUE, TRUE)},
              set  |-> {Base(TRUE), Base(FALSE), Cfg(0, FALSE, 0, 0, 2, 2, FALSE, FALSE), Cfg(2, TRUE, 2, 1, 1, 1, FALSE, FALSE),
@@ -299,14 +305,16 @@ Init ==
   /\ armed = NoTimer /\ now = 0 /\ n = 0 /\ inp = [op |-> "Init"] /\ out = <<>>
   /\ hist = IF Emit = "hist" THEN << [init |-> StateT(St, 0)] >> ELSE <<>>
 
+Lite == Family = "cap"
 Input ==
   \/ \E src \in Sources, len \in U.lens : ClientDatagram(src, [id |-> n + 1, len |-> len])
   \/ \E f \in FlowIds, len \in U.blens : BackendDatagram(f, [id |-> n + 1, len |-> len])
-  \/ \E f \in FlowIds, b \in Backends : BackendResolved(f, b)
+  \/ \E f \in FlowIds, b \in (IF Lite THEN {1} ELSE Backends) : BackendResolved(f, b)
   \/ \E c \in U.set : SetCluster(c)
   \/ \E v \in U.caps : SetMaxFlows(v)
-  \/ \E v \in U.rx : SetMaxRx(v)
-  \/ Drain \/ Timeout \/ CloseAll
+  \/ ~Lite /\ \E v \in U.rx : SetMaxRx(v)
+  \/ ~Lite /\ (Drain \/ Timeout)
+  \/ CloseAll
   \/ \E f \in FlowIds : Abort(f)
 
 Next == (n < MaxInputs /\ Input) \/ (now < MaxTime /\ Tick)
@@ -403,6 +411,10 @@ IntegrityOK(s, i, o, t) ==
         f \in Live(s) /\ t.flows[f].pending = s.flows[f].pending
 
 CapOK(s, i, o, t) ==
+  \* the cap in force is the CONFIGURED one: SetMaxFlows(v) installs exactly v, whatever the population (a cap
+  \* below the live count evicts nothing but admits nothing either until the population is under it), and no
+  \* other step touches it - so "s.maxFlows" below is the last value the control plane asked for
+  /\ IF i.op = "Config" /\ i.ev.what = "SetMaxFlows" THEN t.maxFlows = i.ev.v ELSE t.maxFlows = s.maxFlows
   /\ Cardinality(Live(t)) <= Cardinality(Live(s)) + 1
   /\ Live(t) \ Live(s) # {} =>          \* an admission: under the cap in force, nothing else disturbed
         /\ i.op = "ClientDatagram" /\ ~s.draining
